@@ -196,9 +196,10 @@ func zzShapeOf(a []int) zzShape {
 }
 
 type zzGenState struct {
-	sh      zzShape
-	nstr    int  // running index of string fields (for fld)
-	dom     bool // accumulated domain constraint
+	sh   zzShape
+	nstr int  // running index of string fields (for fld)
+	dom  bool // accumulated domain constraint
+	pre  string
 }
 
 // content returns n content bytes. Up to 24 bytes all are symbolic; longer
@@ -208,7 +209,7 @@ func (g *zzGenState) content(name string, n int, utf8 bool) []byte {
 	if g.sh.fld == g.nstr {
 		n = g.sh.flen
 	}
-	return g.rawContent(name, n, utf8)
+	return g.rawContent(g.pre+name, n, utf8)
 }
 
 func (g *zzGenState) rawContent(name string, n int, utf8 bool) []byte {
@@ -244,21 +245,21 @@ func (g *zzGenState) prop(name string, id byte) zzProp {
 	switch zzPropType(id) {
 	case zzTByte:
 		if zzPropBool(id) {
-			p.u = uint32(zzB2U(zzBool(name)))
+			p.u = uint32(zzB2U(zzBool(g.pre + name)))
 		} else if id == 0x24 {
 			// Maximum QoS: 0 or 1
-			x := zzU8(name)
+			x := zzU8(g.pre + name)
 			g.dom = zzAnd(g.dom, x <= 1)
 			p.u = uint32(x)
 		} else {
-			p.u = uint32(zzU8(name))
+			p.u = uint32(zzU8(g.pre + name))
 		}
 	case zzTU16:
-		p.u = uint32(zzU16(name))
+		p.u = uint32(zzU16(g.pre + name))
 	case zzTU32:
-		p.u = zzU32(name)
+		p.u = zzU32(g.pre + name)
 	case zzTVbi:
-		p.u = zzU32(name)
+		p.u = zzU32(g.pre + name)
 		g.dom = zzAnd(g.dom, zzAnd(p.u >= 1, p.u <= 268435455))
 	case zzTStr:
 		p.s = g.content(name, g.sh.slen, true)
@@ -335,15 +336,19 @@ func (g *zzGenState) props(prefix string, ctx, mask, nUser, nSub int) []zzProp {
 
 // zzGen builds the abstract packet of shape sh with symbolic values. The
 // domain constraint (UTF-8 range, identifier ranges) is assumed at the end.
-func zzGen(sh zzShape) *zzAbs {
-	g := &zzGenState{sh: sh, dom: true}
+func zzGen(sh zzShape) *zzAbs { return zzGen2(sh, "") }
+
+// zzGen2 is zzGen with a prefix for the names of the symbolic inputs, so
+// that several packets can be generated in one harness.
+func zzGen2(sh zzShape, pre string) *zzAbs {
+	g := &zzGenState{sh: sh, dom: true, pre: pre}
 	a := &zzAbs{typ: sh.typ, form: sh.form}
 	switch sh.typ {
 	case 1:
 		a.protoName = []byte("MQTT")
 		a.protoVer = 5
-		a.keepAlive = zzU16("keepAlive")
-		clean := zzBool("cleanStart")
+		a.keepAlive = zzU16(g.pre + "keepAlive")
+		clean := zzBool(g.pre + "cleanStart")
 		a.props = g.props("", 1, sh.mask, sh.nUser, 0)
 		a.clientID = g.content("clientID", sh.slen, true)
 		a.connFlags = byte(zzB2U(clean)) << 1
@@ -360,9 +365,9 @@ func zzGen(sh zzShape) *zzAbs {
 				wl = sh.big
 			}
 			a.willPayload = g.content("willPayload", wl, false)
-			wq := zzU8("willQoS")
+			wq := zzU8(g.pre + "willQoS")
 			g.dom = zzAnd(g.dom, wq <= 2)
-			wr := zzBool("willRetain")
+			wr := zzBool(g.pre + "willRetain")
 			a.connFlags |= 0x04 | (wq&3)<<3 | byte(zzB2U(wr))<<5
 		}
 		if sh.cred&1 == 1 {
@@ -380,19 +385,19 @@ func zzGen(sh zzShape) *zzAbs {
 			}
 		}
 	case 2:
-		a.ackFlags = byte(zzB2U(zzBool("sessionPresent")))
-		a.reason = zzU8("reason")
+		a.ackFlags = byte(zzB2U(zzBool(g.pre + "sessionPresent")))
+		a.reason = zzU8(g.pre + "reason")
 		a.props = g.props("", 2, sh.mask, sh.nUser, 0)
 	case 3:
-		dup, ret := zzBool("dup"), zzBool("retain")
+		dup, ret := zzBool(g.pre+"dup"), zzBool(g.pre+"retain")
 		a.hflags = byte(zzB2U(dup))<<3 | byte(sh.qos)<<1 | byte(zzB2U(ret))
 		tl := sh.slen
 		if tl < 1 && sh.mask&(1<<5) == 0 {
 			tl = 1 // a topic name or a topic alias
 		}
 		a.topic = g.content("topic", tl, true)
-		if sh.qos > 0 {
-			a.pid = zzU16("pid")
+		if sh.qos == 1 || sh.qos == 2 {
+			a.pid = zzU16(g.pre + "pid")
 			g.dom = zzAnd(g.dom, a.pid != 0)
 		}
 		a.props = g.props("", 3, sh.mask, sh.nUser, sh.nList)
@@ -405,12 +410,12 @@ func zzGen(sh zzShape) *zzAbs {
 		if sh.typ == 6 {
 			a.hflags = 2
 		}
-		a.pid = zzU16("pid")
-		a.reason = zzU8("reason")
+		a.pid = zzU16(g.pre + "pid")
+		a.reason = zzU8(g.pre + "reason")
 		a.props = g.props("", sh.typ, sh.mask, sh.nUser, 0)
 	case 8:
 		a.hflags = 2
-		a.pid = zzU16("pid")
+		a.pid = zzU16(g.pre + "pid")
 		a.props = g.props("", 8, sh.mask, sh.nUser, 0)
 		for i := 0; i < sh.nList; i++ {
 			fl := sh.slen
@@ -418,20 +423,20 @@ func zzGen(sh zzShape) *zzAbs {
 				fl = 1
 			}
 			a.filters = append(a.filters, g.content("filter"+zzItoa(i), fl, true))
-			o := zzU8("opt" + zzItoa(i))
+			o := zzU8(g.pre + "opt" + zzItoa(i))
 			// reserved bits 0, QoS != 3, retain handling != 3
 			g.dom = zzAnd(g.dom, zzAnd(o&0xc0 == 0, zzAnd(o&3 != 3, o&0x30 != 0x30)))
 			a.opts = append(a.opts, o)
 		}
 	case 9, 11:
-		a.pid = zzU16("pid")
+		a.pid = zzU16(g.pre + "pid")
 		a.props = g.props("", sh.typ, sh.mask, sh.nUser, 0)
 		for i := 0; i < sh.nList; i++ {
-			a.codes = append(a.codes, zzU8("code"+zzItoa(i)))
+			a.codes = append(a.codes, zzU8(g.pre+"code"+zzItoa(i)))
 		}
 	case 10:
 		a.hflags = 2
-		a.pid = zzU16("pid")
+		a.pid = zzU16(g.pre + "pid")
 		a.props = g.props("", 10, sh.mask, sh.nUser, 0)
 		for i := 0; i < sh.nList; i++ {
 			fl := sh.slen
@@ -442,7 +447,7 @@ func zzGen(sh zzShape) *zzAbs {
 		}
 	case 12, 13:
 	case 14, 15:
-		a.reason = zzU8("reason")
+		a.reason = zzU8(g.pre + "reason")
 		a.props = g.props("", sh.typ, sh.mask, sh.nUser, 0)
 	}
 	if sh.form >= 1 {
